@@ -156,7 +156,7 @@ fn drive_simple(opts: &Opts, level: &str, label: &str, cases: u64, rule: &str, f
         // this engine contributes one leg of a property; another engine merges and reports
         let v = json!({
             "evaluations": rep.evaluations, "distinct": rep.distinct.iter().collect::<Vec<_>>(), "faults": rep.faults.to_json(), "probes": rep.probes.to_json(),
-            "samples": rep.samples, "rule": rep.rule, "extra": rep.extra,
+            "samples": rep.samples, "rule": rep.rule, "extra": rep.extra, "wall_s": rep.elapsed(),
             "violations": rep.violations.iter().map(|v| json!({"class": v.class, "summary": v.summary, "subseed": v.subseed, "replay": v.replay})).collect::<Vec<_>>(),
         });
         write_json(std::path::Path::new(path), &v);
